@@ -35,7 +35,7 @@ package quicvarint
 //@   ensures  [on-error] implies(result2 != nil, result0 == 0 && result1 == 0)
 //@   ensures  [consumed] implies(result2 == nil, result1 == plen(b[0]) && result1 <= len(b) && result1 >= 1)
 //@   ensures  [range]    implies(result2 == nil, result0 <= 4611686018427387903)
-//@   ensures  [value]    implies(result2 == nil, result0 == vdec(b))
+//@   ensures  [bv:value] implies(result2 == nil, result0 == vdec(b))
 //@   modifies nothing
 
 //@ func Append
